@@ -39,7 +39,9 @@ def with_latest_from_(
 
             def on_next(value: Any) -> None:
                 with parent.lock:
-                    if NO_VALUE not in values:
+                    # identity, not ==: `NO_VALUE not in values` asks every VALUE whether it equals the sentinel
+                    # (a value whose __eq__ is always true, or raises, would hide or break the result)
+                    if all(v is not NO_VALUE for v in values):
                         result = (value,) + tuple(values)
                         observer.on_next(result)
 
